@@ -383,6 +383,7 @@ type BlockCtx struct {
 	V2     []types.V2Transaction
 	newFC  map[types.FileContractID]bool
 	reg    map[SID][32]byte // ids derived while building; committed to the Sim only when the block is applied
+	poolBefore types.Currency // siafund pool before the transaction being added
 	pool   types.Currency   // siafund pool as of the next transaction (an honest builder's claim start for ephemeral siafund parents)
 }
 
@@ -509,6 +510,8 @@ func (e ErrUnknown) Error() string { return "chain: cannot concretise: " + e.Wha
 
 // Add concretises an abstract transaction and appends it to the block under construction.
 func (b *BlockCtx) Add(t AbsTx) (err error) {
+	s := b.s
+	b.poolBefore = b.pool
 	defer func() {
 		if r := recover(); r != nil {
 			js, _ := json.Marshal(t)
@@ -534,6 +537,30 @@ func (b *BlockCtx) Add(t AbsTx) (err error) {
 			}
 			for _, fc := range txn.FileContracts {
 				b.pool = b.pool.Add(b.s.CS.FileContractTax(fc))
+			}
+			mat := uint64(b.height) + s.Net.MaturityDelay
+			for _, in := range txn.SiafundInputs {
+				// the claim output is created in this block too (spendable at once when the maturity delay is zero)
+				if sfe, ok := b.sfe(in.ParentID); ok {
+					id := in.ParentID.ClaimOutputID()
+					val := b.poolBefore.Sub(sfe.ClaimStart).Div64(10000).Mul64(sfe.SiafundOutput.Value)
+					b.ephSC[id] = types.SiacoinElement{ID: id, StateElement: types.StateElement{LeafIndex: types.UnassignedLeafIndex},
+						SiacoinOutput: types.SiacoinOutput{Value: val, Address: in.ClaimAddress}, MaturityHeight: mat}
+				}
+			}
+			for _, sp := range txn.StorageProofs {
+				fc, have := b.curFC[sp.ParentID]
+				if !have {
+					if e, ok := s.Store.FC[sp.ParentID]; ok {
+						fc, have = e.FileContract, true
+					}
+				}
+				if have {
+					for j, o := range fc.ValidProofOutputs {
+						id := sp.ParentID.ValidOutputID(j)
+						b.ephSC[id] = types.SiacoinElement{ID: id, StateElement: types.StateElement{LeafIndex: types.UnassignedLeafIndex}, SiacoinOutput: o, MaturityHeight: mat}
+					}
+				}
 			}
 			for i, fc := range txn.FileContracts {
 				b.curFC[txn.FileContractID(i)] = fc
@@ -565,6 +592,29 @@ func (b *BlockCtx) Add(t AbsTx) (err error) {
 			for _, r := range txn.FileContractResolutions {
 				if ren, ok := r.Resolution.(*types.V2FileContractRenewal); ok {
 					b.pool = b.pool.Add(b.s.CS.V2FileContractTax(ren.NewContract))
+				}
+			}
+			mat := uint64(b.height) + s.Net.MaturityDelay
+			for _, in := range txn.SiafundInputs {
+				id := in.Parent.ID.V2ClaimOutputID()
+				val := b.poolBefore.Sub(in.Parent.ClaimStart).Div64(10000).Mul64(in.Parent.SiafundOutput.Value)
+				b.ephSC[id] = types.SiacoinElement{ID: id, StateElement: types.StateElement{LeafIndex: types.UnassignedLeafIndex},
+					SiacoinOutput: types.SiacoinOutput{Value: val, Address: in.ClaimAddress}, MaturityHeight: mat}
+			}
+			for _, r := range txn.FileContractResolutions {
+				fc := r.Parent.V2FileContract
+				if cur, ok := b.curV2[r.Parent.ID]; ok {
+					fc = cur
+				}
+				renter, host := fc.RenterOutput, fc.HostOutput
+				switch res := r.Resolution.(type) {
+				case *types.V2FileContractRenewal:
+					renter, host = res.FinalRenterOutput, res.FinalHostOutput
+				case *types.V2FileContractExpiration:
+					host = fc.MissedHostOutput()
+				}
+				for id, o := range map[types.SiacoinOutputID]types.SiacoinOutput{r.Parent.ID.V2RenterOutputID(): renter, r.Parent.ID.V2HostOutputID(): host} {
+					b.ephSC[id] = types.SiacoinElement{ID: id, StateElement: types.StateElement{LeafIndex: types.UnassignedLeafIndex}, SiacoinOutput: o, MaturityHeight: mat}
 				}
 			}
 			for _, r := range txn.FileContractRevisions {
